@@ -96,6 +96,7 @@ def main(argv=None):
     order = list(range(len(items)))
     random.Random(seed).shuffle(order)          # the seed changes the visiting order only
     items = [items[i] for i in order]
+    items.sort(key=lambda it: -it.get("cost", 0))   # stable: heavy items first (load balance only)
     limit = getattr(mod, "ITEM_LIMIT", {}).get(args.tier) if isinstance(getattr(mod, "ITEM_LIMIT", None), dict) else getattr(mod, "ITEM_LIMIT", None)
     results = pool.run_items(modname, items, workers=args.workers, limit=limit)
 
